@@ -4,7 +4,7 @@ LEVEL = 'exploration'
 RULE = ('fallback allocator: rounds of 1-64 goroutines released by a spin barrier request random sizes until exhaustion (bump pointer reset between '
         'rounds, first round of every process untouched); recorded regions are checked offline for pairwise disjointness, containment in the reserve and '
         'size; public Acquire: concurrent requests of 1B-64KiB checked for rwx mapping, write/read-back, execution of a written stub, disjointness; '
-        'mmap failure provoked for real by size (0, >=2^47), by RLIMIT_AS and by a process-wide W^X policy (seccomp filter denying write+execute mappings and re-protections: the writer must find another way); distinct = (path, goroutines, size class, exhausted?) classes')
+        'mmap failure provoked for real by size (0, >=2^47), by RLIMIT_AS and by a process-wide W^X policy (seccomp filter denying write+execute mappings and re-protections: the writer must find another way); consumers: 420 interface variables mocked through the public API on five routes (Apply, As.Return, As.When.Return, As.Returns, two methods) with executable mappings refused by a seccomp filter, past the exhaustion of the reserve - every configuration is either refused with an error or installs a non-null, distinct stub that dispatches; distinct = (path, goroutines, size class, exhausted?) classes')
 
 
 def run(ctx):
@@ -27,5 +27,15 @@ def run(ctx):
     # a process-wide W^X policy (seccomp filter): neither rwx mappings nor rwx re-protection are possible
     chw = ctx.child(b, run='TestC20WXDenied', timeout=300, label='wx-denied')
     ctx.absorb(chw, crash_key='C20/holder-write-failed', what='TestC20WXDenied')
+    # the consumers of stub space (interface-method mocks through the public API) while the kernel refuses executable
+    # mappings, up to and beyond the exhaustion of the reserve; and once with mappings available
+    fx = {}
+    fx.update(core.vmon_files())
+    fx.update(core.dir_files('harness/c20x', 'zzverif/c20x'))
+    bx = ctx.build('c20x', core.MODPATH + '/zzverif/c20x', fx)
+    chx = ctx.child(bx, run='TestC20Consumers', timeout=300, label='consumers-denied', env={'VERIF_C20X_DENY': '1'})
+    ctx.absorb(chx, what='TestC20Consumers (executable mappings denied)')
+    chy = ctx.child(bx, run='TestC20Consumers', timeout=300, label='consumers', env={'VERIF_C20X_DENY': '0', 'VERIF_C20X_VARS': '420' if not ctx.thorough else '6000'})
+    ctx.absorb(chy, what='TestC20Consumers')
     ctx.assumptions += ['each reset of the bump pointer starts an independent allocation history',
                         'wall-clock stamps are used only to report how many requests overlapped in time, never for the verdict']
